@@ -3,7 +3,7 @@ CONSTANTS
   Paths <- MCPaths
   ManifestPath = "build.ninja"
   MaxBuilds = 3
-  MaxEdits = 3
+  MaxEdits = 2
   Families = {1, 2, 3, 4, 5, 6, 7, 8, 9}
   WithDB = {TRUE, FALSE}
   KeepGoing = {0, 1}
